@@ -1,13 +1,20 @@
 (** C20 - ld.so.preload is never left half-written.
     Statements over the body of etcLdSoPreload_writeFile regenerated from clang's AST (Gen_PreloadSkel). *)
 From Coq Require Import String List Bool.
-From Snoopy Require Import Lib.CStr Lib.Skel Preload.WriteFile Preload.WriteSkel Preload.WriteProofs.
-From Gen Require Import Gen_PreloadSkel.
+From Snoopy Require Import Lib.CStr Lib.Skel Preload.Model Preload.WriteFile Preload.WriteSkel Preload.WriteProofs.
+From Gen Require Import Gen_PreloadSkel Gen_Preload.
 Import ListNotations.
+
+Eval vm_compute in (diagnose sk_writeFile).
 
 (** the shape obligation: the body compiles to a file-operation program that the safety analysis accepts, the analysis
     ends in "renamed", and the temporary file is a sibling of the preload file *)
 Lemma gen_ok : writefile_ok sk_writeFile = true.
+Proof. vm_compute. reflexivity. Qed.
+
+(** the extracted model that predicts the new content in the system-level tie runs on constants the C18/C19 theorems hold for
+    (if the translator misses one, the search falls back to the reference constants instead of predicting with a wrong model) *)
+Lemma consts_ok : preload_consts_ok Gen_Preload.consts = true.
 Proof. vm_compute. reflexivity. Qed.
 
 (** enable / disable write through etcLdSoPreload_writeFile only, exactly once, not in a loop *)
